@@ -1,6 +1,7 @@
 import Fosite.Driver.Pure
 import Fosite.Driver.Hist
 import Fosite.Spec.Monitor
+import Fosite.Driver.LockReport
 open Fosite.Driver
 
 def chomp (line : String) : String :=
@@ -52,4 +53,5 @@ def main (args : List String) : IO UInt32 := do
   | ["pure-spec"] => pureLoop stdin stdout pureSpec; return 0
   | ["hist-model"] => histLoop stdin stdout {}; return 0
   | ["monitor"] => monitorLoop stdin stdout {}; return 0
+  | ["lock-report"] => Fosite.Driver.LockReport.lines.forM (fun l => stdout.putStrLn l); return 0
   | _ => IO.eprintln "usage: fzdriver (pure-model|pure-spec|hist-model)"; return 2
